@@ -256,7 +256,10 @@ def run_template(name, repo_src, workdir, canary=True, rlimit=None):
             cg = vgen.expand(TEMPLATES[name], repo_src, canary=True)
             cpath = os.path.join(workdir, 'canary_%s.rs' % name)
             open(cpath, 'w').write(cg.text())
-            cres = run_verus(cpath, workdir, rlimit)
+            # the canary asks Z3 to prove `false`; where it cannot, a long search adds nothing: a contradiction among
+            # requires / invariants / assumed contracts is found quickly, so the canary run gets a small resource limit
+            # (a function that hits it has not proved false)
+            cres = run_verus(cpath, workdir, rlimit if rlimit else 4)
             failing = set()
             for d in cres['diags']:
                 if d.get('level') != 'error':
